@@ -394,7 +394,7 @@ Lemma activate_cases cf st c id s n auto cl st' o :
   \/ (exists sv, find_pending n st.(st_pend) = None /\ find_service st n = Some sv /\
         st' = mkState st.(st_conns) st.(st_next_conn) st.(st_owners)
                       (st.(st_pend) ++ [mkPending n sv.(sv_exec) st.(st_next_sid) [mkEntry id c s auto cl]])
-                      (st.(st_next_sid) + 1) st.(st_next_id) st.(st_services) /\
+                      (st.(st_next_sid) + 1) st.(st_next_id) st.(st_services) st.(st_fdok) st.(st_replies) /\
         o = [OSpawn st.(st_next_sid) n sv.(sv_exec)] /\ (auto = false -> owner_of st n = None)).
 Proof.
   unfold activate. intros H.
@@ -456,8 +456,8 @@ Proof.
   pose proof (i_unowned _ _ _ I p Hp) as U. rewrite Hn in U. simpl in U. congruence.
 Qed.
 
-Lemma step_connect cf st tr : Inv cf st tr ->
-  Inv cf (fst (step cf st EConnect)) (tr ++ [(EConnect, snd (step cf st EConnect))]).
+Lemma step_connect cf st tr fd : Inv cf st tr ->
+  Inv cf (fst (step cf st (EConnect fd))) (tr ++ [(EConnect fd, snd (step cf st (EConnect fd)))]).
 Proof.
   intros I. simpl. unfold created. simpl. rewrite (pending_wk_not_uq cf st tr _ I).
   eapply inv_frame; eauto; try reflexivity.
